@@ -175,6 +175,37 @@ def novel_keys_copied(oo: ast.AST):
     return False, oo, "no copy of the keys that only the higher layer defines was found"
 
 
+def check_platform_threaded(ctx, fl) -> None:
+    rule = "C04.R11-requested-platform-reaches-every-layer"
+    cls = fl.cls("FlowIRConcrete")
+    methods = {st.name: st for st in cls.body if isinstance(st, ast.FunctionDef)}
+
+    def plat_index(f):
+        names = [a.arg for a in f.args.args]
+        return names.index("platform") - 1 if "platform" in names else None
+    n = 0
+    for name, f in methods.items():
+        if plat_index(f) is None:
+            continue
+        for c in source.calls_in(f, include_nested=True):
+            cn = call_name(c) or ""
+            if not (cn.startswith("self.") and cn[5:] in methods):
+                continue
+            pi = plat_index(methods[cn[5:]])
+            if pi is None:
+                continue
+            n += 1
+            ctx.analysed(f)
+            passed = len(c.args) > pi or any(k.arg == "platform" or k.arg is None for k in c.keywords)
+            ctx.ob(rule, c, passed,
+                   "%s passes a platform to %s" % (name, cn[5:]) if passed else
+                   "%s(platform=..) calls %s without a platform: the callee falls back on the active platform of the object, so for a query "
+                   "about another platform this layer is read from the wrong one (the requested platform's values are dropped, the active "
+                   "platform's leak in) - and the result is cached under the requested platform's label" % (name, cn[5:]),
+                   construct="FlowIRConcrete.%s -> self.%s(.. platform ..)" % (name, cn[5:]))
+    ctx.floor(rule, n, 20, "calls between platform-parametrised methods of FlowIRConcrete")
+
+
 def run(ctx) -> None:
     ctx.explanation = (
         "Order of the variable layers (sequence of variables.update calls traced to their accessors) and of the option "
@@ -191,6 +222,9 @@ def run(ctx) -> None:
     ctx.rule("C04.R10-layer-then-substitute", "flattening a platform (FlowIRConcrete.instance) must not substitute variable references inside "
              "the global / stage layers: the documented order is 'layer everything, then substitute', so a reference in a low layer must "
              "still be able to see a definition that a higher layer (stage, user file, component, override) supplies")
+    ctx.rule("C04.R11-requested-platform-reaches-every-layer", "inside a method of FlowIRConcrete that takes a 'platform' argument, every call of a "
+             "method of the same class that also takes one passes it (any value): a callee that is left to fall back on the ACTIVE platform "
+             "reads one layer - e.g. the selected platform's stage settings - from another platform than the one that was asked for")
     ctx.rule("C04.R9-flattened-description-keeps-the-order", "the configuration is loaded through FlowIRConcrete.instance()/replicate(), a second "
              "implementation of the variable layering: for every way a name can be defined in the default/platform x global/stage "
              "scopes it lets the same scope win as the live resolver get_component_variables (LAYER engine, shared with C07.R7)")
@@ -202,6 +236,7 @@ def run(ctx) -> None:
                                                   "(write => invalidate, alias hand-out, key coverage; the C08 analysis re-used)")
 
     m = ctx.repo.module(FLOWIR)
+    check_platform_threaded(ctx, m)
 
     # ---------------- R7: the layered value is what a query returns only if the cache is transparent -----------------
     from checks import c08
